@@ -88,7 +88,7 @@ func witnessUpdateGuards(P *Program, R *Report) {
 		q := func(m func(Atom) bool) *MustPass { return &MustPass{P: P, Match: m} }
 		r := q(func(a Atom) bool {
 			c, idx := callAndResult(a.V)
-			return c != nil && calleeIs(c, "revocation.(*Update).Verify") && idx == 1 && a.Want == Nil && desc(c.Call.Args[0]) == "<revocation.Update>" && desc(c.Call.Args[1]) == pkD
+			return c != nil && calleeIs(c, "revocation.(*Update).Verify") && idx == 1 && a.Want == Nil && desc(callArgs(c)[0]) == "<revocation.Update>" && desc(callArgs(c)[1]) == pkD
 		}).MustReach(fn, st)
 		R.decide(rule, kWitUpdate+":U:update-verified", "U replaced => update.Verify(pk) returned nil", r.Holds, r.Path, P.Pos(st.Pos()))
 		r = q(func(a Atom) bool {
@@ -96,7 +96,7 @@ func witnessUpdateGuards(P *Program, R *Report) {
 			if !ok {
 				return false
 			}
-			ar := c.Call.Args
+			ar := callArgs(c)
 			return siteOf(ar[0]) == siteOf(newU) && desc(ar[1]) == witD+".E" && strings.HasPrefix(desc(ar[2]), "call:revocation.(*Update).Verify(") && desc(ar[3]) == pkD
 		}).MustReach(fn, st)
 		if !r.Holds {
@@ -123,7 +123,7 @@ func witnessUpdateGuards(P *Program, R *Report) {
 					if e == nil || bigMethod(e) != "Exp" {
 						continue
 					}
-					ar := e.Call.Args
+					ar := callArgs(e)
 					nuD := desc(pr[1])
 					okNu := strings.HasPrefix(nuD, "call:revocation.(*Update).Verify(") && strings.HasSuffix(nuD, "#0.Nu")
 					if a.Fn != fn && nuD == "<revocation.Accumulator>.Nu" {
@@ -160,7 +160,7 @@ func witnessUpdateGuards(P *Program, R *Report) {
 				if !one {
 					continue
 				}
-				ar := c.Call.Args // recv, x, y, a, b
+				ar := callArgs(c) // recv, x, y, a, b
 				ds := []string{desc(ar[3]), desc(ar[4])}
 				hasE, hasProd := false, false
 				for _, d := range ds {
@@ -337,7 +337,7 @@ func windowRule(P *Program, R *Report) {
 	okFrom := false
 	for _, c := range callsIn(fn) {
 		if isCallTo(c, kProduct) {
-			a, ok := affineOf(c.Common().Args[1])
+			a, ok := affineOf(callArgs(c)[1])
 			okFrom = ok && a.String() == parseAffine(witD+".SignedAccumulator.Accumulator.Index+1").String()
 		}
 	}
@@ -434,7 +434,7 @@ func productMemoRule(P *Program, R *Report) {
 				return
 			}
 			fa, ok := st.Addr.(*ssa.FieldAddr)
-			if !ok || typeKey(fa.X.Type()) != "revocation.Update" || fieldName(fa.X.Type(), fa.Field) != "Events" {
+			if !ok || faType(fa) != "revocation.Update" || faName(fa) != "Events" {
 				return
 			}
 			if _, fresh := rootOfAddr(fa.X).(*ssa.Alloc); fresh {
@@ -448,10 +448,10 @@ func productMemoRule(P *Program, R *Report) {
 					return false
 				}
 				f2, ok := s2.Addr.(*ssa.FieldAddr)
-				if !ok || typeKey(f2.X.Type()) != "revocation.Update" || rootOfAddr(f2.X) != root {
+				if !ok || faType(f2) != "revocation.Update" || rootOfAddr(f2.X) != root {
 					return false
 				}
-				return fieldName(f2.X.Type(), f2.Field) == "product" && isNilConst(s2.Val)
+				return faName(f2) == "product" && isNilConst(s2.Val)
 			}}
 			q.init()
 			okAll := true
@@ -559,7 +559,7 @@ func loadedFromFields(v ssa.Value, table map[string]bool) (string, bool) {
 			}
 			switch a := y.X.(type) {
 			case *ssa.FieldAddr:
-				k := typeKey(a.X.Type()) + "." + fieldName(a.X.Type(), a.Field)
+				k := faType(a) + "." + faName(a)
 				if table[k] {
 					return k, true
 				}
@@ -580,8 +580,8 @@ func loadedFromFields(v ssa.Value, table map[string]bool) (string, bool) {
 			}
 		case *ssa.Call:
 			// x.Set(..)/x.Mul(..) return their receiver
-			if m := bigMethod(y); m != "" && bigMutators[m] && len(y.Call.Args) > 0 {
-				return walk(y.Call.Args[0])
+			if m := bigMethod(y); m != "" && bigMutators[m] && len(callArgs(y)) > 0 {
+				return walk(callArgs(y)[0])
 			}
 		}
 		return "", false
@@ -607,7 +607,7 @@ func historyValuesImmutableRule(P *Program, R *Report) {
 			if m == "" {
 				return
 			}
-			for k, a := range c.Call.Args {
+			for k, a := range callArgs(c) {
 				if f, is := loadedFromFields(a, table); is {
 					nReads++
 					if k == 0 && bigMutators[m] {
@@ -645,12 +645,12 @@ func prependProductRule(P *Program, R *Report, rule string) {
 		n++
 		site := siteOf(st.Val)
 		c, isCall := site.(*ssa.Call)
-		if !isCall || !calleeIs(c, kProduct) || desc(c.Call.Args[0]) != "new:revocation.Update" {
+		if !isCall || !calleeIs(c, kProduct) || desc(callArgs(c)[0]) != "new:revocation.Update" {
 			ok = false
 			detail = append(detail, P.Pos(st.Pos())+": the merged product starts from "+desc(site))
 			return
 		}
-		if d := desc(c.Call.Args[1]); !strings.Contains(d, "new:revocation.Update.Events[0].Index") {
+		if d := desc(callArgs(c)[1]); !strings.Contains(d, "new:revocation.Update.Events[0].Index") {
 			ok = false
 			detail = append(detail, P.Pos(st.Pos())+": Product is asked for "+d)
 		}
@@ -663,7 +663,7 @@ func prependProductRule(P *Program, R *Report, rule string) {
 		if !isC || bigMethod(c) == "" || !bigMutators[bigMethod(c)] {
 			continue
 		}
-		if d := desc(siteOf(call.Call.Args[0])); strings.HasPrefix(d, "<revocation.Update>") || strings.HasPrefix(d, "<revocation.EventList>") {
+		if d := desc(siteOf(callArgs(call)[0])); strings.HasPrefix(d, "<revocation.Update>") || strings.HasPrefix(d, "<revocation.EventList>") {
 			okMul = false
 			detail = append(detail, P.Pos(call.Pos())+": in-place "+bigMethod(c)+" on "+d)
 		}
